@@ -267,7 +267,13 @@ pub fn gen_desc(t: &mut crate::tape::Tape) -> ElfDesc {
                 }
                 _ => s.vaddr + t.below(s.memsz.max(1)),
             };
-            let name = if t.below(5) == 0 { None } else { Some(format!("sym{}_{}", k, t.below(1000))) };
+            let name = match t.below(10) {
+                0 | 1 => None,
+                // long names mixing 1–4 byte UTF-8 characters (length and character widths land on
+                // every byte offset, so any fixed-size handling of names meets a split character)
+                2 => Some(wide_name(t.raw(), 1 + t.below(700) as usize)),
+                _ => Some(format!("sym{}_{}", k, t.below(1000))),
+            };
             v.push(Sym { name, value, defined: t.below(6) != 0 });
         }
         Some(v)
@@ -275,4 +281,20 @@ pub fn gen_desc(t: &mut crate::tape::Tape) -> ElfDesc {
         None
     };
     ElfDesc { entry, segs, syms, with_shdrs }
+}
+
+/// A name of about `bytes` bytes whose characters are 1, 2, 3 or 4 bytes wide, expanded from one tape word.
+pub fn wide_name(seed: u64, bytes: usize) -> String {
+    let mut out = String::new();
+    let mut x = seed | 1;
+    while out.len() < bytes {
+        x = crate::util::mix64(x);
+        out.push(match x % 8 {
+            0 | 1 | 2 | 3 => (b'a' + (x >> 8) as u8 % 26) as char,
+            4 | 5 => char::from_u32(0xe0 + (x >> 8) as u32 % 0x18).unwrap(),   // 2 bytes
+            6 => char::from_u32(0x20a0 + (x >> 8) as u32 % 0x20).unwrap(),     // 3 bytes
+            _ => char::from_u32(0x1f600 + (x >> 8) as u32 % 0x40).unwrap(),    // 4 bytes
+        });
+    }
+    out
 }
